@@ -61,7 +61,17 @@ def production(ctx, quick, rnd):
         k2.precompute()
         return k2
     # the same key in several equivalent object forms: the outcome may not depend on the form
-    forms = [lambda key: key, precomputed, own_curve_object, lambda key: pickle.loads(pickle.dumps(key)),
+    def no_order(key):
+        pt = key.pubkey.point
+        return VK.from_public_point(ecm.PointJacobi(key.curve.curve, pt.x(), pt.y(), 1), key.curve, hashlib.sha256)
+
+    def no_cofactor(key):
+        c_ = key.curve
+        pt = key.pubkey.point
+        k2 = VK.from_public_point(ecm.PointJacobi(ecm.CurveFp(c_.curve.p(), c_.curve.a(), c_.curve.b()), pt.x(), pt.y(), 1, c_.order), c_, hashlib.sha256)
+        k2.precompute()
+        return k2
+    forms = [lambda key: key, precomputed, own_curve_object, lambda key: pickle.loads(pickle.dumps(key)), no_order, no_cofactor,
              lambda key: VK.from_public_point(ecm.Point(key.curve.curve, key.pubkey.point.x(), key.pubkey.point.y(), key.curve.order),
                                               key.curve, hashlib.sha256)]
     for ci, c in enumerate(cl):
